@@ -10,19 +10,19 @@ import (
 
 // ---- reference ENCODER, written from the InfluxDB line-protocol escaping rules ----
 // measurement: escape ',' and ' ' ; tag key, tag value, field key: escape ',', '=', ' ' ;
-// string field value: escape '"' and '\'.  (Literal backslashes are only generated inside
-// string field values; names avoid them because the rules leave `\x` in names ambiguous.)
+// string field value: escape '"' and '\'. A literal backslash in a name is written `\\`
+// (the rules do not require it but accept it, and it is the only unambiguous spelling).
 
 func c01Esc(s []byte, kind int) []byte {
 	var out []byte
 	for _, c := range s {
 		switch kind {
 		case 0: // measurement
-			if c == ',' || c == ' ' {
+			if c == ',' || c == ' ' || c == '\\' {
 				out = append(out, '\\')
 			}
 		case 1: // tag key / tag value / field key
-			if c == ',' || c == '=' || c == ' ' {
+			if c == ',' || c == '=' || c == ' ' || c == '\\' {
 				out = append(out, '\\')
 			}
 		case 2: // string field value
@@ -66,10 +66,10 @@ func c01In(focus, name string) bool {
 func VerifC01Point() {
 	focus := zz.Param("focus", "meas")
 	maxlen := zz.ParamInt("maxlen", 2)
-	meas := c01Comp("meas", "m", focus, maxlen, false)
-	tk := c01Comp("tagk", "k", focus, maxlen, false)
-	tv := c01Comp("tagv", "v", focus, maxlen, false)
-	fk := c01Comp("fldk", "f", focus, maxlen, false)
+	meas := c01Comp("meas", "m", focus, maxlen, true)
+	tk := c01Comp("tagk", "k", focus, maxlen, true)
+	tv := c01Comp("tagv", "v", focus, maxlen, true)
+	fk := c01Comp("fldk", "f", focus, maxlen, true)
 	// generator exclusions of the property: no comment line, reserved names
 	zz.Assume(meas[0] != '#')
 	zz.Assume(!zz.EqBytes(fk, tk))
